@@ -211,6 +211,33 @@ def run_shard(ctx):
         layout_laws(ctx, s, flags, rng, origin, all_boundaries=len(s) < 60)
         if k % 997 == 0:
             ctx.sample({"part": "B", "origin": origin, "source": s[:300], "flags": flags})
+    # (C) block strings around runs of quotes and backslashes
+    for i, s in enumerate(block_string_family()):
+        if ctx.mine(i):
+            ctx.case()
+            ctx.count("block_string_family_sources")
+            layout_laws(ctx, s, {}, rng, "block-string family", all_boundaries=True)
+
+
+def block_string_family():
+    """Sources with block strings whose values end / start in runs of quotes and backslashes (written by the printer,
+    whose faithfulness is C08's business): the minimised layout must keep exactly these values."""
+    from graphql import print_ast
+    from graphql.language import ast as A
+    out = []
+    for prefix in ('', 'a', 'a\n  b', '\\', '"', 'a\n'):
+        for k in range(0, 9):
+            for suffix in ('', 'x', '\\', ' ', '\n'):
+                v = prefix + '"' * k + suffix
+                node = A.FieldNode(name=A.NameNode(value='f'), arguments=(A.ArgumentNode(name=A.NameNode(value='a'),
+                                   value=A.StringValueNode(value=v, block=True)),))
+                doc = A.DocumentNode(definitions=(A.OperationDefinitionNode(operation=A.OperationType.QUERY,
+                                     selection_set=A.SelectionSetNode(selections=(node,))),))
+                try:
+                    out.append(print_ast(doc))
+                except Exception:  # noqa: BLE001
+                    pass
+    return out
 
 
 def replay(ctx, case):
